@@ -621,3 +621,23 @@ Lemma enabled_list_exact_pinned_refuted_lemma :
 Proof.
   exists [([99], [114])], [99], [114]. simpl. split; [left; reflexivity|]. split; [reflexivity|]. intros [].
 Qed.
+
+(* command line flags override whatever the configuration file says *)
+Lemma cli_overrides_config p cat title e e' :
+  spec_cli p cat title <> None ->
+  ignored_rule p e cat title = ignored_rule p e' cat title /\
+  level_for_rule p e cat title = level_for_rule p e' cat title.
+Proof.
+  intros Hc.
+  pose proof (decision_eq_spec_rego p e cat title) as H1.
+  pose proof (decision_eq_spec_rego p e' cat title) as H2.
+  unfold spec_decision in H1, H2. destruct (spec_cli p cat title) as [d|]; [|contradiction].
+  unfold impl_decision in H1, H2.
+  pose proof (level_ignore_iff_ignored p e cat title) as L1.
+  pose proof (level_ignore_iff_ignored p e' cat title) as L2.
+  destruct (ignored_rule p e cat title) eqn:I1; destruct (ignored_rule p e' cat title) eqn:I2; simpl in H1, H2.
+  - split; [reflexivity|]. rewrite (proj2 L1 eq_refl), (proj2 L2 eq_refl). reflexivity.
+  - congruence.
+  - congruence.
+  - split; [reflexivity|]. congruence.
+Qed.
